@@ -182,6 +182,12 @@ Theorem C17_reset_can_return : forall r p, wf r -> In p (r_chain r) -> is_runner
 Proof. exact reset_can_return. Qed.
 Print Assumptions C17_reset_can_return.
 
+(* several objects handed back one after the other: most recently installed first, in front of the chain as it was *)
+Theorem C17_reinstall_order : forall l r T, NoDup l -> (forall i, In i l -> exists p, find_id i (r_out r) = Some p) ->
+  map p_id (r_chain (fst (tb_acts (r, T) (map AReinstall l)))) = rev l ++ map p_id (r_chain r).
+Proof. exact reinstall_order. Qed.
+Print Assumptions C17_reinstall_order.
+
 (* an enabled recording plugin that is installed again sees the pre action of the next test first (and its post action last) *)
 Theorem C17_reinstall_logs_first : forall r i p, find_id i (r_out r) = Some p -> p_on p = true -> logs p = true ->
   log_ids (r_chain (reg_act remove_by_name r (AReinstall i))) = i :: log_ids (r_chain r).
